@@ -168,6 +168,9 @@ def one_run(run, ct, net, mode, sets, failing, post, objective, seed, M, real_po
         pool, parallel = None, False
     else:
         pool, parallel = real_pool, real_pool
+    # the tag space must stay small for samplers that materialise integer ranges (nevergrad)
+    from cotengra.hyperoptimizers import hyper as _hy
+    _hy.register_hyper_function("verif", verif_trial, {"tag": {"type": "INT", "min": 0, "max": 10**9 if optlib == "random" else 4000}})
     try:
         with core.watchdog(180):
             opt = ct.HyperOptimizer(methods=list(methods), max_repeats=M, parallel=parallel, optlib=optlib,
